@@ -238,6 +238,43 @@ func (h *H) onStart(w *W, jr *JobRec, s int) {
 			break
 		}
 	}
+	// C04 (concurrency 1, priority queue): at this job's dequeue no fully accepted, still pending job of the same
+	// queue had a smaller (priority, acceptance) key. The dequeue cannot lie before t: the end of the previous job
+	// of this worker (limit 1), this job's own Add call, or the Resume that followed a pause with nothing started since.
+	if jr.Q != nil && jr.Q.Kind.IsPrio() && len(w.Qs) == 1 && jr.Accepted && w.maxLimitEver() == 1 && len(jr.Starts) == 1 {
+		t := jr.AddCall
+		for _, o := range h.Jobs {
+			for k, e := range o.Ends {
+				if o.StartW[k] == w && e < s && e > t {
+					t = e
+				}
+			}
+		}
+		lastStart := 0
+		for _, o := range h.Jobs {
+			for k, st := range o.Starts {
+				if o.StartW[k] == w && st < s && st > lastStart {
+					lastStart = st
+				}
+			}
+		}
+		for _, c := range h.Ctls {
+			if c.W == w && (c.Op == "Resume" || c.Op == "Restart") && c.Call < s && c.Call > lastStart && c.Call > t && w.RefState != "?" {
+				t = c.Call
+			}
+		}
+		for _, o := range h.Jobs {
+			if o == jr || o.Q != jr.Q || !o.Accepted || o.AddRet == 0 || o.AddRet >= t || len(o.Starts) > 0 || o.anyClose() || h.maybePurged(o) {
+				continue
+			}
+			if o.Batch != nil && !h.batchSure(o) {
+				continue
+			}
+			if o.Prio < jr.Prio || (o.Prio == jr.Prio && o.AddRet < jr.AddCall) {
+				h.viol("C04", "C04.priority", "a job was dispatched while a pending job of the same queue had a smaller priority number or, at equal priority, had been accepted earlier")
+			}
+		}
+	}
 	// C04 (concurrency 1, FIFO): a job whose Add returned before this job's Add was called must have started first
 	if jr.Q != nil && !jr.Q.Kind.IsPrio() && len(w.Qs) == 1 && jr.Accepted {
 		for _, o := range h.Jobs {
